@@ -506,9 +506,9 @@ var justifiedORD = map[string]ordJust{
 			return true, ""
 		},
 	},
-	"analysis.(PkgSelector).findPackage|pa.Imports":  {why: "depth-first search for the package with a given import path: at most one package of the import graph has that path, so the result does not depend on the visiting order", side: searchSide},
-	"analysis/httpapi.selectFileByPos|pa.Imports":    {why: "search for the file containing a position: file position ranges are disjoint, at most one file matches", side: searchSide},
-	"analysis/httpapi.selectPackage|pa.Imports":      {why: "search for the package with a given path: unique in the import graph", side: searchSide},
+	"analysis.(PkgSelector).findPackage|pa.Imports": {why: "depth-first search for the package with a given import path: at most one package of the import graph has that path, so the result does not depend on the visiting order", side: searchSide},
+	"analysis/httpapi.selectFileByPos|pa.Imports":   {why: "search for the file containing a position: file position ranges are disjoint, at most one file matches", side: searchSide},
+	"analysis/httpapi.selectPackage|pa.Imports":     {why: "search for the package with a given path: unique in the import graph", side: searchSide},
 	"generator/dart.Generate|buf.files": {
 		why: "the result is a set of output files keyed by file name; each element's content depends only on its own map entry, and both consumers write each element to its own path",
 		side: func(c *ordCtx, rs *ast.RangeStmt) (bool, string) {
